@@ -453,3 +453,109 @@ Proof.
     exists (VBool false), s'. split; [exact E|]. split; [exact Eh|]. split; [exact Es|]. left.
     split; [exact Hno | reflexivity].
 Qed.
+
+(* ============================================================ assoc (equal?) *)
+(* an association-list element that is a pair whose key is equal? to x *)
+Definition akey_hit (s : vm) (x n : aval) : Prop :=
+  exists p k v, n = ALoc (LPair p) /\ a_pair (abs s) p = Some (k, v) /\ aequal s k x.
+
+Lemma entry_hit_akey s x ad :
+  entry_hit s (fun a => aequal s (absv s x) (absv s a)) ad <->
+  akey_hit s (absv s x) (absv s (VPtr (fst ad))).
+Proof.
+  split.
+  - intros (k & v & Hg & HP). exists (fst ad), (absv s (VPtr k)), (absv s (VPtr v)).
+    split; [cbn [absv]; rewrite Hg; reflexivity|].
+    split; [cbn [abs a_pair]; rewrite Hg; reflexivity|]. apply aequal_sym. exact HP.
+  - intros (p & k & v & Hn & Hp & HA). cbn [absv] in Hn.
+    destruct (heap_get (hp s) (fst ad)) as [c| | |] eqn:Hg; try discriminate Hn.
+    destruct c; cbn [cell_val] in Hn; try discriminate Hn.
+    injection Hn as <-. cbn [abs a_pair] in Hp. rewrite Hg in Hp. injection Hp as <- <-.
+    exists car, cdr. split; [exact Hg|]. apply aequal_sym. exact HA.
+Qed.
+
+Lemma cells_entry_ok s l cells e (ok : vcell -> Prop) :
+  values_are_refs s -> val_ok s l -> pchain (hp s) l cells e ->
+  (forall ad k v, In ad cells -> heap_get (hp s) (fst ad) = Ok (VPair k v) -> target_ok s k -> ok (VPtr k)) ->
+  Forall (entry_ok s ok) cells.
+Proof.
+  intros W Hl Hpc Hk.
+  destruct (pchain_cells_ok s l cells e W Hl Hpc) as (Hcok & _).
+  rewrite Forall_forall in *. intros ad Hin.
+  destruct (proj1 (Hcok ad Hin)) as (_ & c & Hg & _).
+  exists c. split; [exact Hg|]. intros k v ->.
+  pose proof W as (_ & Hpairs & _). destruct (Hpairs _ _ _ Hg) as (Tk & _).
+  exact (Hk ad k v Hin Hg Tk).
+Qed.
+
+Theorem prelude_assoc_spec fuel s x al xs e :
+  values_are_refs s -> sym_interned s -> val_ok s x -> val_ok s al -> sp s < scap s ->
+  achain (abs s) (absv s al) xs e ->
+  (forall n p k v, In n xs -> n = ALoc (LPair p) -> a_pair (abs s) p = Some (k, v) ->
+     exists d, adatum s k d /\ (2 * d + 2 < fuel)%nat) ->
+  (exists k, adatum s (absv s x) k /\ (2 * k + 2 < fuel)%nat) -> (length xs + 1 < fuel)%nat ->
+  e = AImm VNil ->
+  exists r s', p_ass fuel (equal_b fuel) [x; al] s = ROk r s' /\ hp s' = hp s /\
+    ((forall n, In n xs -> ~ akey_hit s (absv s x) n) /\ absv s r = AImm (VBool false) \/
+     exists i n, nth_error xs i = Some n /\ absv s r = n /\ akey_hit s (absv s x) n /\
+       (forall j m, (j < i)%nat -> nth_error xs j = Some m -> ~ akey_hit s (absv s x) m)).
+Proof.
+  intros W Hint Hx Hl Hinv Hch Hel Hkx Hlen ->.
+  destruct (achain_pchain s W _ _ _ Hch al Hl eq_refl) as (cells & e' & Hpc & Hm & He & Hve).
+  destruct (pchain_end_deref _ _ _ _ Hpc) as (ce & Hce & Hpe).
+  assert (ce = VNil) by (apply (nil_deref s e' ce Hve Hce); exact He). subst ce.
+  assert (Hlenc : length cells = length xs) by (rewrite <- Hm; now rewrite map_length).
+  assert (Hokc : Forall (entry_ok s (plain_small fuel s)) cells).
+  { apply (cells_entry_ok s al cells e' _ W Hl Hpc). intros ad k v Hin Hg Tk. split; [exact Tk|].
+    apply (Hel (absv s (VPtr (fst ad))) (fst ad) (absv s (VPtr k)) (absv s (VPtr v))).
+    - rewrite <- Hm. exact (in_map (fun ad => absv s (VPtr (fst ad))) cells ad Hin).
+    - cbn [absv]. rewrite Hg. reflexivity.
+    - cbn [abs a_pair]. rewrite Hg. reflexivity. }
+  destruct (ass_go_spec fuel s (equal_b fuel) x (plain_small fuel s)
+              (fun a => aequal s (absv s x) (absv s a))
+              (equal_cmp_spec fuel s x W Hint (conj Hx Hkx))
+              al cells e' Hpc s fuel VNil eq_refl eq_refl Hinv ltac:(lia) Hokc Hce)
+    as [(i & ad & ((ad1 & Hn1 & HP) & Hbefore) & Hn & s' & E & Eh & Es) | (Hno & R)].
+  - rewrite Hn in Hn1. injection Hn1 as <-.
+    exists (VPtr (fst ad)), s'. split; [exact E|]. split; [exact Eh|]. right.
+    exists i, (absv s (VPtr (fst ad))).
+    split; [rewrite <- Hm; exact (map_nth_error (fun ad => absv s (VPtr (fst ad))) i cells Hn)|].
+    split; [reflexivity|]. split; [apply entry_hit_akey; exact HP|].
+    intros j m Hj Hnj HA. rewrite <- Hm, nth_error_map in Hnj.
+    destruct (nth_error cells j) as [ad'|] eqn:En; [|discriminate Hnj].
+    cbn [option_map] in Hnj. injection Hnj as <-.
+    apply (Hbefore j ad' Hj En). apply entry_hit_akey. exact HA.
+  - cbn [is_nil] in R. destruct R as (s' & E & Eh & Es).
+    exists (VBool false), s'. split; [exact E|]. split; [exact Eh|]. left. split; [|reflexivity].
+    intros n Hin HA. rewrite <- Hm in Hin. apply in_map_iff in Hin. destruct Hin as (ad & <- & Hin).
+    apply (Hno ad Hin). apply entry_hit_akey. exact HA.
+Qed.
+
+(* ====================================================== assq / assv (eqv?) *)
+Theorem prelude_assv_spec fuel s x al cells e :
+  values_are_refs s -> sym_interned s -> val_ok s x -> val_ok s al -> sp s < scap s ->
+  pchain (hp s) al cells e -> heap_deref (hp s) e = Ok VNil ->
+  (forall ad k v, In ad cells -> heap_get (hp s) (fst ad) = Ok (VPair k v) ->
+     exists d, adatum s (absv s (VPtr k)) d) ->
+  (exists k, adatum s (absv s x) k) -> (length cells + 1 <= fuel)%nat ->
+  exists r s', p_ass fuel eqv_b [x; al] s = ROk r s' /\ hp s' = hp s /\ st s' = st s /\
+    ((forall ad, In ad cells -> ~ entry_hit s (eqv_true s x) ad) /\ r = VBool false \/
+     exists i ad, nth_error cells i = Some ad /\ r = VPtr (fst ad) /\ entry_hit s (eqv_true s x) ad /\
+       (forall j ad', (j < i)%nat -> nth_error cells j = Some ad' -> ~ entry_hit s (eqv_true s x) ad')).
+Proof.
+  intros W Hint Hx Hl Hinv Hpc Hce Hel Hkx Hlen.
+  assert (Hokc : Forall (entry_ok s (plain_val s)) cells).
+  { apply (cells_entry_ok s al cells e _ W Hl Hpc). intros ad k v Hin Hg Tk. split; [exact Tk|].
+    exact (Hel ad k v Hin Hg). }
+  destruct (ass_go_spec fuel s eqv_b x (plain_val s) (eqv_true s x)
+              (eqv_cmp_spec s x W Hint (conj Hx Hkx))
+              al cells e Hpc s fuel VNil eq_refl eq_refl Hinv Hlen Hokc Hce)
+    as [(i & ad & ((ad1 & Hn1 & HP) & Hbefore) & Hn & s' & E & Eh & Es) | (Hno & R)].
+  - rewrite Hn in Hn1. injection Hn1 as <-.
+    exists (VPtr (fst ad)), s'. split; [exact E|]. split; [exact Eh|]. split; [exact Es|]. right.
+    exists i, ad. split; [exact Hn|]. split; [reflexivity|]. split; [exact HP | exact Hbefore].
+  - cbn [is_nil] in R. destruct R as (s' & E & Eh & Es).
+    exists (VBool false), s'. split; [exact E|]. split; [exact Eh|]. split; [exact Es|]. left.
+    split; [exact Hno | reflexivity].
+Qed.
+
